@@ -88,6 +88,8 @@ func checkProbeEdge(c *mon.Case, what string, b bounds, p s2.Point, kind string,
 			class = "near-full-cap"
 		case ex <= 4e-15+2e-15/math.Max(math.Sin(rad), 1e-9):
 			class = "representation-level"
+		case antiNorm < 0.1 && ex <= 1e-14/antiNorm:
+			class = "nearly-antipodal-edge" // cap bounds of loops and polylines are derived from the rectangle bound
 		}
 		c.Max("CapBound.max_miss_rad."+class, ex)
 		c.Violation("CapBound/"+class+"/"+what+"/misses-"+kind, fmt.Sprintf("CapBound (radius %.6g rad) does not contain a %s of the region: outside by %.3g rad", rad, kind, ex), det())
